@@ -559,6 +559,41 @@ func runOp(c *vu.Case) {
 			o.disturbed = true
 			settle()
 			out = "inflight=" + o.parkedStr()
+			// the caller gave up: the call must be back without anybody else doing anything
+			select {
+			case <-done:
+				out += " back=1"
+			default:
+				out += " back=0"
+			}
+		case "cancelwait":
+			// the caller gives up and every call whose own context has thereby ended comes back at once (a sender that
+			// notices its context): the operation must be back without anything else happening. What is still parked then
+			// was started with a context that outlives the caller's.
+			cancel()
+			cancelled = true
+			o.disturbed = true
+			settle()
+			for round := 0; round < 200; round++ {
+				progress := false
+				for _, pk := range w.sender.Parked() {
+					if pk.ctx != nil && pk.ctx.Err() != nil {
+						w.sender.release(pk, parkedResult{ctxErr: true})
+						progress = true
+					}
+				}
+				settle()
+				if !progress {
+					break
+				}
+			}
+			out = "inflight=" + o.parkedStr()
+			select {
+			case <-done:
+				out += " back=1"
+			default:
+				out += " back=0"
+			}
 		case "adv":
 			o.disturbed = true
 			time.Sleep(time.Duration(atoi(f[1])) * time.Second)
@@ -850,6 +885,18 @@ func TestVerifC03(t *testing.T) {
 	vu.Run(t, vu.Config{Prop: "C03", QuickN: 1200, ThoroughN: 40000,
 		Gen: func(r *vu.RNG, c *vu.Case) bool {
 			genOpCase(r, c, allOpKinds)
+			if c.Idx%10 == 8 && len(c.In) > 2 {
+				// cancellation at some point of the schedule, observed by every call bound to the caller's context at once
+				cut := 1 + r.Intn(len(c.In)-1)
+				var in []string
+				for _, l := range c.In[:cut] {
+					if l != "cancel" && !strings.HasPrefix(l, "finish") {
+						in = append(in, l)
+					}
+				}
+				c.In = append(in, "cancelwait", "finish")
+				c.Tag("cancelwait")
+			}
 			if c.Idx%10 == 9 {
 				// the same operation called with a context that has already ended, or on a node that has been closed
 				pre := []string{"cancel", "closed"}[r.Intn(2)]
